@@ -102,7 +102,7 @@ func hasEvent(evs []string, want string) bool {
 }
 
 func runC16(e *Env) {
-	e.Rule = "ALL 256 controller types (128 subsets of {Index, Create, Store, Show, Edit, Update, Delete} x with/without Uses(); Uses() returns a marker middleware for every action incl. unimplemented ones) x base paths {/, /api/, /v1/admin/; inside a group also the empty string, api/, v1/admin/} x inside/outside a Group (single group, nested groups 2+1 middleware, 3 middleware passed to Resource itself: slices with spare capacity), registered on fresh routers several times (every third plain case mounts the same controller type a second time under /second/ on the same router and checks both mounts) (map iteration inside Resource is random), HandleMethodNotAllowed on, cache on/off. Observed: Router.Routes() as (method, path, name) triples, NamedRoutes(), and the answers to 9 methods x {/res, /res/, /res/create, /res/7, /res/create/edit, /res/7/edit, /res/7/x, /other}: answering action + id, marker middleware seen, 405 + Allow set, 404. Oracle: the documented seven-row table filtered by the subset (+ the C06 resolution order). Resource(base, T{}) and Resource(base, &string) must panic. Non-trivial: every (type, base, group) combination; distinct by it. Every controller instance carries a tag that its actions report (the answering action must belong to the instance given to that Resource call); Uses() maps also contain keys that are no action names (case variants, empty, unknown) whose middleware must never run. Two fifths of the grouped cases call Use() 2..3 times in the group body before mounting the resource (the group's list then has spare capacity)."
+	e.Rule = "ALL 256 controller types (128 subsets of {Index, Create, Store, Show, Edit, Update, Delete} x with/without Uses(); Uses() returns a marker middleware for every action incl. unimplemented ones) x base paths {/, /api/, /v1/admin/, /{tenant}/, /{tenant:\\d+}/, /V1/Admin/; inside a group also the empty string, api/, v1/admin/} x inside/outside a Group (single group, nested groups 2+1 middleware, 3 middleware passed to Resource itself: slices with spare capacity), registered on fresh routers several times (every third plain case mounts the same controller type a second time under /second/ on the same router and checks both mounts) (map iteration inside Resource is random), HandleMethodNotAllowed on, cache on/off. Observed: Router.Routes() as (method, path, name) triples, NamedRoutes(), and the answers to 9 methods + 4 method tokens that are not upper case (get, Post, delete, head) x {/res, /res/, /res/create, /res/7, /res/abc-1, /res/create/edit, /res/7/edit, /res/abc-1/edit, /res/7/x, /res/edit, /other}: answering action + id, marker middleware seen, 405 + Allow set, 404. Oracle: the documented seven-row table filtered by the subset (+ the C06 resolution order). Resource(base, T{}) and Resource(base, &string) must panic. Non-trivial: every (type, base, group) combination; distinct by it. Every controller instance carries a tag that its actions report (the answering action must belong to the instance given to that Resource call); Uses() maps also contain keys that are no action names (case variants, empty, unknown) whose middleware must never run. Two fifths of the grouped cases call Use() 2..3 times in the group body before mounting the resource (the group's list then has spare capacity)."
 	e.Assumptions = []string{
 		"non-strict mode (the documented table is the non-strict one); base paths end in '/' as documented",
 	}
@@ -122,6 +122,9 @@ func runC16(e *Env) {
 		}
 		if !inGroup && (t.Idx/combos)%2 == 1 && base == "/api/" {
 			base = "/{tenant}/" // a base path with a variable: create and show are both dynamic routes then
+			if t.Idx%4 >= 2 {
+				base = `/{tenant:\d+}/` // ... with a regex of its own, which is the tenant's and not the id's
+			}
 		}
 		if !inGroup && (t.Idx/combos)%2 == 1 && base == "/v1/admin/" {
 			base = "/V1/Admin/" // the base path is the caller's text: only the controller name is lower-cased
@@ -244,6 +247,10 @@ func runC16(e *Env) {
 					fullSegs = append(fullSegs, Seg{Var: &Var{Name: "tenant", Class: classes[0]}})
 					continue
 				}
+				if s == `{tenant:\d+}` {
+					fullSegs = append(fullSegs, Seg{Var: &Var{Name: "tenant", Class: classByID["digits"]}})
+					continue
+				}
 				fullSegs = append(fullSegs, Seg{Pre: s})
 			}
 			for i, row := range c16Table {
@@ -283,9 +290,11 @@ func runC16(e *Env) {
 			// probe matrix
 			cfg := RouterCfg{NotAllowed: true, CacheCap: -1}
 			full = strings.ReplaceAll(full, "{tenant}", "acme") // the request spelling
-		paths := []string{full, full + "/", full + "/create", full + "/7", full + "/create/edit", full + "/7/edit", full + "/7/x", "/other", full + "/edit"}
+			full = strings.ReplaceAll(full, `{tenant:\d+}`, "42")
+			paths := []string{full, full + "/", full + "/create", full + "/7", full + "/create/edit", full + "/7/edit", full + "/7/x", "/other", full + "/edit", full + "/abc-1", full + "/abc-1/edit"}
+			// (method tokens are case-sensitive: "get", "Post" ... are other methods, they reach no action)
 			for _, path := range paths {
-				for _, method := range AllMethods {
+				for _, method := range append(append([]string{}, AllMethods...), "get", "Post", "delete", "head") {
 					want, _ := refResolve(tb, cfg, method, path)
 					rec, pv, panicked := Serve(router, NewReq(method, path))
 					t.Count("resource.probes", 1)
